@@ -222,6 +222,45 @@ func propC05(c *Ctx) {
 			return sites[i].p.Pos() < sites[j].p.Pos()
 		})
 		c.extra["functions_reachable_from_compile_entries"] = len(full)
+		{
+			// ---- const-slice-bound: the trace helpers cut an indentation prefix out of a
+			// constant string; the cut never exceeds the constant's length whatever the
+			// nesting depth of the script (deeply nested valid scripts must compile with
+			// tracing on as they do with tracing off)
+			rcs := c.Rule("const-slice-bound", "a constant string sliced by a computed length on the compile path (the indentation of the compiler, optimizer and parser traces) is sliced inside its length on every path: the upper bound is established by the loop or comparison that precedes the slice, for every nesting depth", 3)
+			pb := ptrBitsOf(l)
+			nn := 0
+			var fl []*ssa.Function
+			for f := range full {
+				if inRepo(f) && f != vmRun && len(f.Blocks) > 0 {
+					fl = append(fl, f)
+				}
+			}
+			for _, f := range sortedFuncs(funcSet(fl)) {
+				eachInstr(f, func(ins ssa.Instruction) {
+					sl, ok := ins.(*ssa.Slice)
+					if !ok || sl.High == nil {
+						return
+					}
+					k, ok := sl.X.(*ssa.Const)
+					if !ok || k.Value == nil || k.Value.Kind() != constant.String {
+						return
+					}
+					if _, isConst := sl.High.(*ssa.Const); isConst {
+						return
+					}
+					nn++
+					n := int64(len(constant.StringVal(k.Value)))
+					r := rangeAt(sl.High, sl.Block(), pb)
+					okb := r.hi <= n || linLEConst(sl.High, n, sl.Block(), pb)
+					c.Check(rcs, fnName(f)+" | constant string sliced to a computed length", l.Pos(sl.Pos()), okb, fmt.Sprintf("upper bound proven <= %d", n),
+						fmt.Sprintf("the slice's upper bound %s is not proven <= %d, the length of the constant string: with tracing on, a valid script nested deeper than the constant allows makes Compile panic with 'slice bounds out of range' (tracing off compiles it)", describe(sl.High), n))
+				})
+			}
+			if nn == 0 {
+				c.Und(rcs, "trace indentation helpers", "-", "no constant string is sliced by a computed length on the compile path")
+			}
+		}
 		for _, s := range sites {
 			vt := s.p.X.Type()
 			if mi, ok := s.p.X.(*ssa.MakeInterface); ok {
